@@ -59,6 +59,7 @@ def life_stage(work, res, tier, prefixes, replay=None):
         for p in pend:
             e = vlib.goenv()
             e.update({"VERIF_CASES": cases, "VERIF_TRACE": os.path.join(d, "t%d.ndjson" % p["i"]),
+                      "VERIF_HANG_S": "10" if p.get("hangs") else "45",
                       "VERIF_JOURNAL": os.path.join(d, "j%d" % p["i"]), "VERIF_RESUME": str(p["resume"]),
                       "VERIF_SHARD": "%d/%d" % (p["i"], nsh), "VERIF_SEED": str(vlib.SEED)})
             out = open(os.path.join(d, "o%d.txt" % p["i"]), "w")
@@ -78,8 +79,10 @@ def life_stage(work, res, tier, prefixes, replay=None):
             case = int(open(jp).read().strip())
             why = "deadlock" if "deadlock" in txt else ("panic" if "panic" in txt else ("hang" if "verif: hang" in txt else "died"))
             if why == "hang":
-                # a hang is only believed when the schedule hangs again on its own
-                if not confirm_hang(work, binp, cases, case, d):
+                # a hang is only believed when the schedule hangs again on its own (once a shard has a confirmed hang,
+                # later stalls of that shard are believed at once, and after three the rest of the shard is left out:
+                # the verdict is there, the remaining schedules would each cost the watchdog's patience)
+                if not p.get("hangs") and not confirm_hang(work, binp, cases, case, d):
                     log("lifecycle harness shard %d stalled on schedule %d but the schedule completes on its own: "
                         "no verdict from it; resuming" % (p["i"], case))
                     p["resume"] = case
@@ -96,6 +99,12 @@ def life_stage(work, res, tier, prefixes, replay=None):
                 fh.write(json.dumps(rec) + "\n")
             log("lifecycle harness shard %d died on schedule %d (%s); resuming" % (p["i"], case, rec["results"][0]["err"]))
             p["resume"] = case
+            if why == "hang":
+                p["hangs"] = p.get("hangs", 0) + 1
+                if p["hangs"] >= 3:
+                    log("lifecycle harness shard %d: three schedules hung; the rest of this shard is not executed" % p["i"])
+                    res.cov["vacuous"] += 1
+                    continue
             pend.append(p)
     trace = os.path.join(d, "trace.ndjson")
     with open(trace, "w") as out:
